@@ -29,7 +29,7 @@ def showStmt (kind : String) (r : Res ParseErr Stmt) : String :=
     match kind, st with
     | "e", .expr _ => "ok"
     | "assign", .assign x _ => "ok " ++ hexField x
-    | "cycle", .cycle g vs => "ok " ++ hexField g ++ " " ++ ",".intercalate (vs.map fun v => "s" ++ hexEncode v)
+    | "cycle", .cycle g v0 vs => "ok " ++ hexField g ++ " " ++ ",".intercalate ((v0 :: vs).map fun v => "s" ++ hexEncode v)
     | "loop", .loop x _ m => "ok " ++ hexField x ++ " " ++ flagS m.reversed "r" ++ flagS m.limit.isSome "l" ++
         flagS m.offset.isSome "o" ++ flagS m.cols.isSome "c"
     | "when", .when es => s!"ok {es.length}"
